@@ -17,7 +17,14 @@ def cls_of(fam):
 # text scanner, and a constructor call followed by hashing and comparing (what any consumer that
 # de-duplicates does before it reads an object).
 ENTRY = "direct"
-ENTRIES = ("rh", "text", "hashed")
+ENTRIES = ("rh", "text", "hashed", "strsub")
+
+
+class Text(str):
+    """A str subclass (what an ORM column, a lazy translation or a markup-safe string hands over):
+    every str is a legal argument, and a subclass instance is a str."""
+    __slots__ = ("origin",)
+
 
 
 class EntryError(Exception):
@@ -48,6 +55,10 @@ def construct(fam, vec):
             raise EntryError("parse_cvss_from_text(%r) returns %r instead of the one %s object" % (
                 vec, got, cls.__name__))
         return got[0]
+    if e == "strsub":
+        t = Text(vec)
+        t.origin = "somewhere"
+        return cls(t)
     if e == "hashed":
         o = cls(vec)
         seen = set([o])
@@ -60,7 +71,8 @@ def construct(fam, vec):
 def via():
     return "" if ENTRY == "direct" else "  [object obtained through %s]" % {
         "rh": "from_rh_vector(<its score>/<vector>)", "text": "parse_cvss_from_text(<vector>)",
-        "hashed": "the constructor, then hashed and compared"}[ENTRY]
+        "hashed": "the constructor, then hashed and compared",
+        "strsub": "the constructor called with an instance of a str subclass"}[ENTRY]
 
 
 def observation(fam, obj):
@@ -82,6 +94,26 @@ def observation(fam, obj):
         out["clean_noprefix"] = obj.clean_vector(output_prefix=False)
         out["severity"] = obj.severity
         out["base_score"] = obj.base_score
+    return out
+
+
+def count_seeds(fam):
+    """For every possible number of fields (mandatory only ... all metrics) two accepted vectors
+    with exactly that many fields: the first k optional metrics at their last value, and the last
+    k optional metrics alternating between Not Defined and their second value."""
+    tab = T.METRICS[fam]
+    mand = T.MANDATORY[fam]
+    opt = T.OPTIONAL[fam]
+    nd = T.ND[fam]
+    out = []
+    for k in range(len(opt) + 1):
+        a = dict((m, tab[m][k % len(tab[m])]) for m in mand)
+        a.update(dict((m, tab[m][-1]) for m in opt[:k]))
+        b = dict((m, tab[m][(k + 1) % len(tab[m])]) for m in mand)
+        b.update(dict((m, nd if i % 2 else [v for v in tab[m] if v != nd][1 % len([v for v in tab[m] if v != nd])])
+                      for i, m in enumerate(opt[len(opt) - k:])))
+        for asg in (a, b):
+            out.append((T.spell(fam, asg, [m for m in tab if m in asg]), asg))
     return out
 
 
